@@ -29,7 +29,9 @@ impl Seek for Snap {
     }
 }
 
-fn check_snapshot(s: &[u8], start: usize, dir_rva: usize, n: usize) -> Result<(), String> {
+/// `hw[i]`: length of the image at the moment entry i was handed to the writer — everything stream i
+/// references (thread stacks, contexts, name strings live AFTER the stream body) lies below it
+fn check_snapshot(s: &[u8], start: usize, dir_rva: usize, n: usize, hw: &[usize]) -> Result<(), String> {
     if s.len() < start + dir_rva + 12 * n {
         return Err(format!("directory not completely present: {} bytes", s.len()));
     }
@@ -48,6 +50,13 @@ fn check_snapshot(s: &[u8], start: usize, dir_rva: usize, n: usize) -> Result<()
                 s.len() - start
             ));
         }
+        if hw[i] > s.len() - start {
+            return Err(format!(
+                "entry {i} (type {ty}) is in the destination but the data it references (image bytes up to {}) is not: only {} bytes are",
+                hw[i],
+                s.len() - start
+            ));
+        }
     }
     Ok(())
 }
@@ -60,13 +69,17 @@ fn every_prefix_is_consistent() {
         let mut buffer = Buffer::with_capacity(0);
         let n = 2u32;
         let mut bad = None;
+        let mut hw: Vec<usize> = Vec::new();
         {
             let mut dir = DirSection::new(&mut buffer, n, &mut dest).unwrap();
             let dir_rva = dir.position() as usize;
             dir.write_to_file(&mut buffer, None).unwrap();
             for k in 0..n {
-                // a stream body of 40 bytes
+                // a stream body of 40 bytes followed by 24 bytes the stream references (like a thread list and its
+                // stacks): the entry names only the body
                 let body = MemoryArrayWriter::write_bytes(&mut buffer, &[0xA0 + k as u8; 40]);
+                MemoryArrayWriter::write_bytes(&mut buffer, &[0xB0 + k as u8; 24]);
+                hw.push(buffer.len());
                 let dirent = MDRawDirectory {
                     stream_type: 100 + k,
                     location: MDLocationDescriptor { data_size: 40, rva: body.position },
@@ -77,7 +90,7 @@ fn every_prefix_is_consistent() {
         }
         let dir_rva = 0usize; // the directory is the first thing allocated in this buffer
         for (k, s) in dest.snaps.iter().enumerate() {
-            if let Err(e) = check_snapshot(s, start, dir_rva, n as usize) {
+            if let Err(e) = check_snapshot(s, start, dir_rva, n as usize, &hw) {
                 bad = Some(format!("start={start} after write #{k}: {e}"));
                 break;
             }
